@@ -203,6 +203,14 @@ def runSched (d : Doc V E) (cfg : Cfg) : State V E → List Nat → Option (Stat
     | none => none
     | some s' => runSched d cfg s' is
 
+/-- a scheduler of its own: always the enabled thread with the smallest number (at most `fuel` steps) -/
+def runFirst (d : Doc V E) (cfg : Cfg) : Nat → State V E → State V E
+  | 0, s => s
+  | fuel+1, s =>
+    match (List.range s.threads.length).findSome? fun i => step d cfg s i with
+    | some s' => runFirst d cfg fuel s'
+    | none => s
+
 inductive Reachable (d : Doc V E) (cfg : Cfg) (s0 : State V E) : State V E → Prop
   | init : Reachable d cfg s0 s0
   | step {s s' : State V E} (i : Nat) : Reachable d cfg s0 s → step d cfg s i = some s' → Reachable d cfg s0 s'
